@@ -25,7 +25,7 @@ from vf.props.common import harness_error, inconclusive, proved, violation
 ID = "C12"
 LEVEL = "model_checking"
 ITEM_BUDGET_S = {"quick": 400, "thorough": 1500}
-QT = {"quick": 15000, "thorough": 60000}
+QT = {"quick": 15000, "thorough": 30000}
 _TIER = "quick"
 X, Y = ("var", "x"), ("var", "y")
 P1, P2 = ("param", "p1"), ("param", "p2")
